@@ -5,8 +5,8 @@
   are exactly these rounds.  Arm64 value semantics: UNVALIDATED transcription of the Arm ARM.
   The prologue / epilogue of X2 and X4 and the complete theorems are in ISAValArm64X2.lean / ISAValArm64X4*.lean;
   `cryptoBlockAsmX8` (different round macro `subRoundX8`) in ISAValArm64X8*.lean.  `cryptoBlockAsmX16Internal`
-  (`subRoundX16`: state stashed in the 256-byte `tmp` buffer and reloaded several times per round) is NOT proved in
-  general: tests only (ISAValArm64Tests.lean).
+  (`subRoundX16`: state stashed in the 256-byte `tmp` buffer and reloaded several times per round) in
+  ISAValArm64X16*.lean.
 -/
 import SMGo.Proofs.ISAValArm64X1
 namespace SMGo.Proofs.ISAValArm64
